@@ -50,6 +50,9 @@ def cases(tier, seed):
                 # a controller with memory (proportional-integral) in every other block of nine: whatever the loop carries
                 # across a checkpoint must survive it (seed C05-s3 reset the controller at checkpoints on step ends)
                 "control": ["integral", "pi"][(k // (18 if tier == "thorough" else 9)) % 2],
+                # absolute and relative tolerance differ by orders of magnitude in two of three cases: every routine must hand
+                # them on in the right roles (seed C05-s4: the terminal-value routine exchanged them)
+                "rtol_factor": [1.0, 1e2, 1e-2][(k + k // 3 + k // 9) % 3],
                 "field": field.to_json(), "inits": [[str(x) for x in b] for b in inits], "t0": str(t0),
                 "seedc": rng.randrange(10**9), "cost": 15.0,
             }
@@ -74,7 +77,7 @@ def _record_run(cfg, save_at, case, clip=False):
     solve = ivpsolve.solve_adaptive_save_at(solver=rec, error=record.RecError(log, cfg["error"]), clip_dt=clip, control=control,
                                             while_loop=record.make_while(log, max_iter=300))
     with jax.disable_jit():
-        sol = solve(cfg["prior"], jnp.asarray(save_at), atol=case["tol"], rtol=case["tol"], dt0=case["dt0"], eps=EPS)
+        sol = solve(cfg["prior"], jnp.asarray(save_at), atol=case["tol"], rtol=case["tol"] * case.get("rtol_factor", 1.0), dt0=case["dt0"], eps=EPS)
     states = c03._accepted_states(log, rec)
     trace = [(e["from_t"], e["dt"]) for i, e in enumerate(log.events) if e["ev"] == "step"
              and next((x for x in log.events[i + 1 : i + 3] if x["ev"] == "error"), {"ep": 0})["ep"] >= 1.0]
@@ -243,7 +246,7 @@ def run_case(case):
     strat_es = "filter" if case["strategy"] == "filter" else "fixedinterval"
     cfg_es = configs.build(fact=fact, strategy=strat_es, cal=cal, ts=case["ts"], nu=nu, problem=problem)
     sol_es = test_util.solve_adaptive_save_every_step(solver=cfg_es["solver"], error=cfg_es["error"], clip_dt=False, control=_control(case))(
-        cfg_es["prior"], t0, T1, atol=case["tol"], rtol=case["tol"], dt0=case["dt0"], eps=EPS)
+        cfg_es["prior"], t0, T1, atol=case["tol"], rtol=case["tol"] * case.get("rtol_factor", 1.0), dt0=case["dt0"], eps=EPS)
     grid_es = np.asarray(sol_es.t, float)
     for jx, t in enumerate(B[1:-1], start=1):
         if np.min(np.abs(grid_es - t)) <= 10 * EPS:
@@ -262,11 +265,11 @@ def run_case(case):
     # ---- (d) terminal-value routine ------------------------------------------------------------------------------------
     for clip in (False, True):
         term = jax.jit(ivpsolve.solve_adaptive_terminal_values(solver=cfg["solver"], error=cfg["error"], clip_dt=clip, control=_control(case), while_loop=configs.bounded_while()))(
-            cfg["prior"], t0=t0, t1=T1, atol=case["tol"], rtol=case["tol"], dt0=case["dt0"], eps=EPS)
+            cfg["prior"], t0=t0, t1=T1, atol=case["tol"], rtol=case["tol"] * case.get("rtol_factor", 1.0), dt0=case["dt0"], eps=EPS)
         mt, Pt = extract.normal_dense(term.u)
         if clip:
             two = jax.jit(ivpsolve.solve_adaptive_save_at(solver=cfg["solver"], error=cfg["error"], clip_dt=True, control=_control(case), while_loop=configs.bounded_while()))(
-                cfg["prior"], jnp.asarray([t0, T1]), atol=case["tol"], rtol=case["tol"], dt0=case["dt0"], eps=EPS)
+                cfg["prior"], jnp.asarray([t0, T1]), atol=case["tol"], rtol=case["tol"] * case.get("rtol_factor", 1.0), dt0=case["dt0"], eps=EPS)
             mr, Pr = extract.normal_dense(extract.tree_index(two.u, 1))
         else:
             mr, Pr = extract.normal_dense(extract.tree_index(solB.u, len(B) - 1))
